@@ -16,10 +16,10 @@ CLAIMED = {
         "Dependency-heavy generated sequences; layout oracle on every case, history oracle under random / maximal-overlap / jittered schedules for dispatch, dispatch_par, dispatch_seq (async: C15 check).",
         LAYOUT_NOTE, "DESIGN.md 4/C02"),
     "C03": (PBT + "; oracles: barrier segments occupy strictly increasing stage ranges (A), Released(pre) < FetchBegin(post) in observed histories (B)",
-        "Generated sequences with barriers at arbitrary positions incl. inside batch builders; layout and history oracles.",
+        "Generated sequences with barriers at arbitrary positions incl. inside batch builders; layout oracle, metamorphic oracle (removing barriers that follow no registration leaves the executed plan unchanged), history oracle under schedule control incl. all interleavings of tiny plans, and the async dispatcher.",
         LAYOUT_NOTE, "DESIGN.md 4/C03"),
     "C04": (PBT + "; oracles: registered == executed (shape hook + identification run); run counters after generated call sequences",
-        "Generated sequences incl. the funnel class (groups filled to capacity), nested batches with custom and MultiDispatcher controllers, thread-local systems; counters after 1..4 calls of dispatch / dispatch_par / dispatch_seq on pools of 1..16 threads.",
+        "Generated sequences incl. the funnel class (groups filled to capacity), nested batches with custom and MultiDispatcher controllers, thread-local systems; counters after every call of generated sequences of dispatch / dispatch_par / dispatch_seq / dispatch_thread_local on pools of 1..16 threads.",
         LAYOUT_NOTE, "DESIGN.md 4/C04"),
     "C05": (PBT + "; differential oracle: order-sensitive systems, parallel dispatch under a generated schedule vs dispatch_seq of the same dispatcher on an identical world; DFS over all interleavings for tiny plans",
         "Differential generated-input search: world contents and every system's state after parallel dispatch must equal the sequential result, for every pool size and schedule tried.",
@@ -55,7 +55,7 @@ CLAIMED = {
         "Generated plans x histories over dispatch / running / wait / wait_without_tl / world / world_mut / setup x pool sizes; a held system is released after k polls or from a helper thread while the caller blocks.",
         "Holding a system only creates the opportunity for a bug to show; bounded holds (<= 30 ms) are not a verdict.", "DESIGN.md 4/C15"),
     "C16": (PBT + " over generated trees of the real Par / Seq node types (boxing adapter); oracle: exactly-once, seq order from the event history, union of declarations, setup counters; planted-conflict rejection trees",
-        "Trees of depth <= 5, fan-out <= 6, pools 1..16, dispatch from outside and inside the pool; runnable trees and trees with exactly one planted conflict (Par::with must panic exactly there).",
+        "Trees of depth <= 5, fan-out <= 6, pools 1..16, dispatch from outside and inside the pool, inherent API and RunNow impl; runnable trees and trees with exactly one planted conflict (Par::with must panic exactly there); plus statically typed trees of zero-sized systems written with the real par!/seq! macros.",
         "'May overlap' is a permission and is not asserted. Debug assertions are on in the harness profile.", "DESIGN.md 4/C16"),
     "C17": ("model-based property testing: generated register / insert / remove / get / iterate histories over 7 implementing types (incl. a wrong CastFrom) against a reference list in first-registration order",
         "Every type's methods read its own payload so a wrong vtable shows as a wrong tag (or a crash that the journal attributes); iteration while foreign guards are held.",
@@ -68,7 +68,7 @@ CLAIMED = {
         LAYOUT_NOTE + " c19-processes compares with a second process and with the harness built without the `parallel` feature.", "DESIGN.md 4/C19"),
     "C20": (PBT + "; oracle = printed text parses and equals the executed layout position by position",
         "Generated-input search over builders with unnamed systems, arbitrary names over letters and the sanitised characters, batches, empty builders. Found and fixed one defect (unnamed systems made Debug panic).",
-        LAYOUT_NOTE + " print_par_seq is println!(\"{:#?}\", self), i.e. the same formatter; it is not called separately (it would flood stdout).", "DESIGN.md 4/C20"),
+        LAYOUT_NOTE + " print_par_seq is called for about one plan in 64 with stdout pointed at /dev/null; c20-nopar compares the printed texts with a second process and with the build without the `parallel` feature.", "DESIGN.md 4/C20"),
 }
 
 NOT_YET = "check not built yet in this session (planned, see DESIGN.md section 4)"
